@@ -13,9 +13,10 @@ CONSTANTS
   AllowWindow = TRUE
   StartStates = {"empty", "data"}
   OtherAtStart = {FALSE}
+  ReceiveOnly = FALSE
   MaxForce = 0
   OnlyOnce = FALSE
 SPECIFICATION Spec
-INVARIANTS TypeOK NoLocalLoss ReadyMeansLoaded ReadyMeansPublished ExitOnlyWhenDone
+INVARIANTS TypeOK NoLocalLoss ReadyMeansLoaded ReadyMeansPublished ExitOnlyWhenDone ReceiveOnlyStoresNothing
 PROPERTIES CommittedOnlyAfterStore LSNeverBackwards NoEchoUpload NoUploadBeforeOwnMerged BucketMonotone ReadyStable ForcedWhenDue
 CHECK_DEADLOCK FALSE
